@@ -534,7 +534,7 @@ _C18V = [H("stunrs", CTX + n, tier=t, timeout=2400, mem_gb=14, covers=None, stub
     ("c18v_novalidate_fp_fp", "thorough", "FINGERPRINT, FINGERPRINT", "default context"))]
 _C18V[-1].covers = 1
 _C18C += _C18V
-_C18C += [H("stunrs", CTX + n, tier="quick", timeout=900, mem_gb=8, covers=(2 if "fingerprint" in n else 1), stubs=[NOFMT, FPANY], playback=False,
+_C18C += [H("stunrs", "context::verif_context_unit::" + n, tier="quick", timeout=900, mem_gb=8, covers=(2 if "fingerprint" in n else 1), stubs=[NOFMT, FPANY], playback=False,
             bounds="one %s attribute, every option set (context absent / validation / not_ignore / unknown data), both verdicts of the primitive" % k,
             funcs=["context::validate_attribute", "StunAttribute::as_verifiable_ref", "DecoderContextBuilder::{with_validation,not_ignore,with_unknown_data}"])
           for (n, k) in (("c18_validate_unit_fingerprint", "FINGERPRINT (verifiable)"), ("c18_validate_unit_priority", "PRIORITY (not verifiable)"))]
